@@ -300,6 +300,12 @@ func (hs *serverHandshakeStateTLS13) processClientHello() error {
 		hs.hello.serverShare.data = append(ciphertext, hs.hello.serverShare.data...)
 	}
 
+	if h := verifServerHook(c); h != nil && h.KyberDraftTLS13 {
+		if err := verifKyberDraftKeyExchange(hs); err != nil {
+			return err
+		}
+	}
+
 	selectedProto, err := negotiateALPN(c.config.NextProtos, hs.clientHello.alpnProtocols, c.quic != nil)
 	if err != nil {
 		c.sendAlert(alertNoApplicationProtocol)
